@@ -317,7 +317,7 @@ pub fn c14_plan(tier: Tier) -> Plan {
                 }
             }
         }
-        let seeds: u64 = if tier == Tier::Quick { 6 } else { 60 };
+        let seeds: u64 = if tier == Tier::Quick { 15 } else { 200 };
         let size = cfgs.len() as u64 * seeds;
         spaces.push(Space {
             name: "P.burst.systematic",
@@ -344,7 +344,7 @@ pub fn c14_plan(tier: Tier) -> Plan {
     }
     // random histories with connections ending while others arrive
     {
-        let n = if tier == Tier::Quick { 12_000 } else { 400_000 };
+        let n = if tier == Tier::Quick { 40_000 } else { 1_500_000 };
         spaces.push(Space {
             name: "P.history.random",
             size: n,
@@ -382,7 +382,7 @@ pub fn c14_plan(tier: Tier) -> Plan {
     spaces.extend(crate::lsim::c14_spaces(tier));
     Plan {
         spaces,
-        rule: "P: the real ThreadPool driven by an acceptor task under the controlled scheduler. Systematic: initial 1..3 x max 1..4 x 1..6 submissions x every pattern of 'wait for quiescence between two submissions' x 6 (quick) / 60 (thorough) seeded schedules (modes: uniform, sticky, PCT-like priorities, acceptor burst, starved worker; bounded-bypass fairness); random: histories that also open gates (connections ending) between submissions. A run is distinct by (configuration, ops, hash of the context-switch sequence) and non-trivial when the schedule has >= 4 context switches. L: the real listen loop with pools {(1,1),(1,2),(1,3),(2,2),(2,3),(1,4),(3,4),(3,2)} x 2..6 long-lived connections x four arrival patterns (all connect then all send; one by one without waiting; one by one with a quiescence wait; connections ending in between) x 8 (quick) / 150 (thorough) seeded schedules; oracle: connections in service (first server-side I/O .. worker drops it) never exceed max_worker_threads at any event, and at quiescence an unserved connection implies max connections in service.".into(),
+        rule: "P: the real ThreadPool driven by an acceptor task under the controlled scheduler. Systematic: initial 1..3 x max 1..4 x 1..6 submissions x every pattern of 'wait for quiescence between two submissions' x 15 (quick) / 200 (thorough) seeded schedules (modes: uniform, sticky, PCT-like priorities, acceptor burst, starved worker; bounded-bypass fairness); random: histories that also open gates (connections ending) between submissions. A run is distinct by (configuration, ops, hash of the context-switch sequence) and non-trivial when the schedule has >= 4 context switches. L: the real listen loop with pools {(1,1),(1,2),(1,3),(2,2),(2,3),(1,4),(3,4),(3,2)} x 2..6 long-lived connections x four arrival patterns (all connect then all send; one by one without waiting; one by one with a quiescence wait; connections ending in between) x 20 (quick) / 400 (thorough) seeded schedules; oracle: connections in service (first server-side I/O .. worker drops it) never exceed max_worker_threads at any event, and at quiescence an unserved connection implies max connections in service.".into(),
         level: "exploration",
         real: vec![
             "varlink::server::ThreadPool::{new, execute, drop, num_busy}",
